@@ -6,12 +6,14 @@ package PKG
 // `go test -overlay` run against the real build.
 
 import (
+	"context"
 	"encoding/json"
 	"fmt"
 	"os"
 	"reflect"
 	"strconv"
 	"strings"
+	"time"
 )
 
 type verifNondetRec struct {
@@ -366,6 +368,21 @@ func verifNoop() {}
 
 // ctxTimeoutCount: number of context.WithTimeout calls made so far (engine ghost state; natively unknown).
 func ctxTimeoutCount() int { return -1 }
+
+// ctxTimeoutNs: the duration handed to the innermost context.WithTimeout the context descends from, -1 when
+// there is none (engine ghost state). Natively: the time left until the deadline, rounded to 100 ms.
+func ctxTimeoutNs(ctx context.Context) int64 {
+	dl, ok := ctx.Deadline()
+	if !ok {
+		return -1
+	}
+	return int64(time.Until(dl).Round(100 * time.Millisecond))
+}
+
+// timerCount / timerNs: the time.After calls made so far and their durations (engine ghost state; natively
+// unknown: no timer is reported).
+func timerCount() int      { return 0 }
+func timerNs(i int) int64 { return -1 }
 
 // heldByMe reports whether the calling goroutine holds the mutex (engine ghost state; natively permissive).
 func heldByMe(mu interface{}) bool { return true }
